@@ -14,6 +14,14 @@ FUNCTIONS = [
     "autoarray.fit.fit_util.chi_squared_map_from",
     "autoarray.fit.fit_util.chi_squared_from",
     "autoarray.fit.fit_util.noise_normalization_from",
+    "autoarray.fit.fit_util.normalized_residual_map_complex_from",
+    "autoarray.fit.fit_util.chi_squared_map_complex_from",
+    "autoarray.fit.fit_util.chi_squared_complex_from",
+    "autoarray.fit.fit_util.noise_normalization_complex_from",
+    "autoarray.fit.fit_interferometer.FitInterferometer.normalized_residual_map",
+    "autoarray.fit.fit_interferometer.FitInterferometer.chi_squared_map",
+    "autoarray.fit.fit_interferometer.FitInterferometer.chi_squared",
+    "autoarray.fit.fit_interferometer.FitInterferometer.noise_normalization",
     "autoarray.fit.fit_util.residual_map_with_mask_from",
     "autoarray.fit.fit_util.normalized_residual_map_with_mask_from",
     "autoarray.fit.fit_util.chi_squared_map_with_mask_from",
@@ -76,17 +84,22 @@ BOUNDS = {
              "(<= 3 pixels) with the object lists U1R1 / R1M1. In-place updates between reads: on one fit object the statistics are read, then "
              "every unmasked entry of dataset.noise_map (resp. dataset.data, resp. the model image) is overwritten in place through the structure's "
              "__setitem__ with fresh symbolic values (new noise > 0), then every statistic is read again and must follow its definition for the new "
-             "contents; all masks of 1x2, 1x3, 2x2, both modes, sky symbolic, without inversion and with the object list R1M1",
+             "contents; all masks of 1x2, 1x3, 2x2, both modes, sky symbolic, without inversion and with the object list R1M1. Complex "
+             "(interferometer) statistics: the four fit_util.*_complex_from functions and FitInterferometer (on a dataset stand-in, no transformer) "
+             "residual / normalized-residual / chi-squared maps, chi_squared, reduced_chi_squared, noise_normalization, log_likelihood, figure_of_merit "
+             "for N = 1,2,3 visibilities whose real and imaginary data, model and noise parts are 6N independent solver variables (noise parts > 0)",
     "thorough": "same, shapes additionally 2x4,4x2,1x7,2x5,3x4 for the fit statistics (residual-flux-fraction <= 10 pixels incl. 3x3, signal-to-noise <= 6 pixels, "
                 "fit_util <= 10 pixels); evidence additionally for object lists R3,M2,U2M2,R2U2,U1R1N1M1,M2R2,R2R1,M1M2,U2M1U1,R1M1R1,U1M3U1,M1U2R1,N2R1 and masks of 2x3; read-order cases additionally 1x4 (both modes) and "
-                "2x3 (slim mode), with inversion up to 4 pixels; in-place update cases additionally 2x3",
+                "2x3 (slim mode), with inversion up to 4 pixels; in-place update cases additionally 2x3; complex statistics additionally N = 4, 6",
 }
 OUTSIDE = [
     "shapes / parameter counts beyond the bounds",
     "the curvature matrix F and the reconstruction s themselves (handed to AbstractInversion through its cached-property slots; they are C03-C05's "
     "subject), real mappers/regularization schemes (the regularization matrix is assembled by the real LinearObj/AbstractInversion code from "
     "symbolic per-object blocks)",
-    "FitInterferometer / complex visibilities (fit_util.*_complex_from), the noise-covariance chi-squared branch, the pylops inversion",
+    "the Interferometer dataset class / transformers / dirty images (need pylops), FitInterferometer.signal_to_noise_map, the Visibilities "
+    "structures on symbolic values (the symbolic run feeds FitInterferometer a harness-level complex vector, the float64 validation / replay "
+    "real aa.Visibilities), the noise-covariance chi-squared branch, the pylops inversion",
     "values of the maps in MASKED pixels of masked-native mode (the property only speaks about unmasked pixels; e.g. zero-filling is not demanded)",
     "pixels where a definition divides by zero in exact arithmetic: noise = 0 on an unmasked pixel; for residual_flux_fraction_map data = 0 on an "
     "unmasked pixel; for the native signal-to-noise map (computed by the code on the whole array) noise = 0 in a masked pixel",
@@ -105,6 +118,9 @@ STUBS = [
     "scipy.linalg.block_diag on blocks holding proxies: explicit block placement",
     "autoarray.numpy_wrapper.Callable.__call__: a scalar proxy result is returned bare, as a np.float64 would be (`isinstance(result, float)`)",
     "reference log det in replays/validation: numpy.linalg.slogdet of the index-selected block",
+    "np.divide / subtract / add / multiply called with where=<array holding symbolic booleans>: the where array is concretised by forking",
+    "complex numbers: harness-level pair (re, im) of proxies; proxy * 1j builds it, complex / real divides both parts, .real / .imag of an "
+    "array of such pairs read the components, .astype(complex128) is the identity",
 ]
 ASSUMPTIONS = [
     "noise > 0 on unmasked pixels (property precondition); nothing is assumed about values in masked pixels except where listed under OUTSIDE",
@@ -261,6 +277,116 @@ class _SymLU:
         self.L, self.U = _SymLUFactor(ones), _SymLUFactor(u)
 
 
+class _SymC:
+    """symbolic complex number: a pair (re, im) of proxies / floats with the operations the complex fit code uses"""
+    __hash__ = None
+
+    def __init__(self, re, im):
+        self.re, self.im = re, im
+
+    real = property(lambda self: self.re)
+    imag = property(lambda self: self.im)
+
+    @staticmethod
+    def _parts(o):
+        if isinstance(o, _SymC):
+            return o.re, o.im
+        if isinstance(o, (complex, np.complexfloating)):
+            return np.float64(o.real), np.float64(o.imag)
+        if V.is_sym(o) or V._is_num(o):
+            return o, np.float64(0.0)
+        return None
+
+    def __add__(self, o):
+        p = self._parts(o)
+        if p is None or isinstance(o, np.ndarray):
+            return NotImplemented
+        return _SymC(self.re + p[0], self.im + p[1])
+
+    __radd__ = __add__
+
+    def __sub__(self, o):
+        p = self._parts(o)
+        if p is None or isinstance(o, np.ndarray):
+            return NotImplemented
+        return _SymC(self.re - p[0], self.im - p[1])
+
+    def __rsub__(self, o):
+        p = self._parts(o)
+        if p is None or isinstance(o, np.ndarray):
+            return NotImplemented
+        return _SymC(p[0] - self.re, p[1] - self.im)
+
+    def __mul__(self, o):
+        p = self._parts(o)
+        if p is None or isinstance(o, np.ndarray):
+            return NotImplemented
+        return _SymC(self.re * p[0] - self.im * p[1], self.re * p[1] + self.im * p[0])
+
+    __rmul__ = __mul__
+
+    def __truediv__(self, o):
+        if isinstance(o, (np.ndarray, _SymC, complex)) or not (V.is_sym(o) or V._is_num(o)):
+            return NotImplemented
+        return _SymC(self.re / o, self.im / o)          # complex / real divides both components
+
+    def __neg__(self):
+        return _SymC(-self.re, -self.im)
+
+    def __repr__(self):
+        return "_SymC(%r, %r)" % (self.re, self.im)
+
+
+class _OArr(np.ndarray):
+    """object array standing for a complex (or component) array: .real/.imag read the components of its elements
+    (numpy returns the array itself / zeros for object dtype), .astype(complex128 / float) is the identity"""
+
+    def astype(self, *a, **k):
+        return self
+
+    @property
+    def real(self):
+        out = np.empty(self.shape, dtype=object)
+        for i, e in np.ndenumerate(np.asarray(self)):
+            out[i] = e.re if isinstance(e, _SymC) else (np.float64(e.real) if isinstance(e, complex) else e)
+        return out.view(_OArr)
+
+    @property
+    def imag(self):
+        out = np.empty(self.shape, dtype=object)
+        for i, e in np.ndenumerate(np.asarray(self)):
+            out[i] = e.im if isinstance(e, _SymC) else (np.float64(e.imag) if isinstance(e, complex) else np.float64(0.0))
+        return out.view(_OArr)
+
+
+def _cvec(re, im):
+    """complex vector from component lists: complex128 array on floats, _OArr of _SymC on proxies"""
+    re, im = list(re), list(im)
+    if not (shim.has_sym(re) or shim.has_sym(im)):
+        return np.array([complex(float(a), float(b)) for a, b in zip(re, im)], dtype=complex)
+    out = np.empty(len(re), dtype=object)
+    for i, (a, b) in enumerate(zip(re, im)):
+        out[i] = _SymC(a, b)
+    return out.view(_OArr)
+
+
+def _cparts(x):
+    """[re_0.., im_0..] of a complex result (array / structure / scalar)"""
+    if isinstance(x, hx.Raised):
+        return x
+    x = hx.unwrap(x)
+    flat = list(np.asarray(x, dtype=object).reshape(-1)) if isinstance(x, np.ndarray) else [x]
+    re, im = [], []
+    for e in flat:
+        if isinstance(e, _SymC):
+            re.append(e.re), im.append(e.im)
+        elif isinstance(e, (complex, np.complexfloating)):
+            re.append(float(e.real)), im.append(float(e.imag))
+        else:
+            re.append(e), im.append(0.0)
+    return re + im
+
+
 def POST_INSTALL():
     import scipy.linalg
     import scipy.sparse
@@ -308,6 +434,32 @@ def POST_INSTALL():
             r += b.shape[0]
             c += b.shape[1]
         return out
+
+    # (3) np.divide / np.subtract / ... (out=..., where=<array holding SymBool>): numpy needs a real bool array -> fork (shim rule f)
+    def with_where(name):
+        real = getattr(np, name)
+
+        def f(self, *a, **kw):
+            w = hx.unwrap(kw.get("where", True))
+            if isinstance(w, np.ndarray) and w.dtype == object:
+                kw["where"] = V.ctx().concrete_bools(np.asarray(w, dtype=object)) if shim.has_sym(w) else w.astype(bool)
+            return real(*a, **kw)
+
+        return f
+
+    for name in ("divide", "true_divide", "subtract", "add", "multiply"):
+        setattr(shim.NPFacade, name, with_where(name))
+
+    # (4) complex values: proxy * 1j -> harness-level symbolic complex number
+    orig_mul = V.SymReal.__mul__
+
+    def mul(self, o):
+        if isinstance(o, complex):
+            return _SymC(orig_mul(self, o.real), orig_mul(self, o.imag))
+        return orig_mul(self, o)
+
+    V.SymReal.__mul__ = mul
+    V.SymReal.__rmul__ = mul
 
     abstract.csc_matrix = csc_matrix
     abstract.splu = splu
@@ -465,8 +617,27 @@ def _known_ids():
     return [k for k in os.environ.get("VERIF_KNOWN", "").split(",") if k]
 
 
+def _shape_rff(ctx, inputs, mask, util=False):
+    """side conditions that only shape counterexample / validation models of the residual-flux-fraction obligations (group
+    'shape': sliced out of the obligation queries): the divisor data' is either clearly tiny (<= 2^-40, i.e. data in
+    physical units, only with sky level 0 so that data - sky cannot cancel in float64) or clearly not (>= 2^-20) - never within float rounding of a tolerance such as numpy's atol 1e-8 -
+    and |residual| >= |data'| so that a wrong value differs visibly from residual/data' in the float64 replay"""
+    for p in _positions(mask):
+        if util:
+            d, r = inputs["d"][p].t, inputs["r"][p].t
+        else:
+            d = inputs["d"][p].t - inputs["sky"].t
+            r = d - inputs["mo"][p].t
+        tiny = _abs(d) <= z3.RealVal(2) ** -40
+        if not util:
+            tiny = z3.And(tiny, inputs["sky"].t == 0)      # data - sky must not cancel to 0.0 in float64
+        ctx.assume(z3.Or(_abs(d) >= z3.RealVal(2) ** -20, tiny), group="shape")
+        ctx.assume(_abs(r) >= _abs(d), group="shape")
+
+
 def case_rff(ctx, H, W, native):
     mask, inputs = _mask_and_inputs(ctx, H, W)
+    _shape_rff(ctx, inputs, mask)
 
     def known(A, E):
         if KNOWN_RFF not in _known_ids():
@@ -554,6 +725,8 @@ def case_util(ctx, H, W, part):
         inputs[k] = V.real_array(k, (H, W))
     for p in _positions(mask):
         ctx.assume(inputs["n"][p].t > 0)
+    if part == "rff":
+        _shape_rff(ctx, inputs, mask, util=True)
     _run(ctx, body_util, inputs, {"H": H, "W": W, "part": part}, validate_every=16)
 
 
@@ -767,6 +940,7 @@ def body_order(inp, H, W, native, order, config):
 
 def case_order(ctx, H, W, native, order, config):
     mask, inputs = _mask_and_inputs(ctx, H, W)
+    _shape_rff(ctx, inputs, mask)
     if config:
         P = sum(k for _, k in _parse_objs(config))
         inputs["F"] = V.real_array("F", (P, P))
@@ -865,8 +1039,63 @@ def case_update(ctx, H, W, native, which, config):
     _run(ctx, body_update, inputs, {"H": H, "W": W, "native": native, "which": which, "config": config}, validate_every=8)
 
 
+# ---------------------------------------------------------------------------- case 7: complex (interferometer) statistics
+
+def body_complex(inp, N):
+    """complex fit_util functions and the FitInterferometer properties built on them: every statistic is taken per
+    component - real parts with the real noise, imaginary parts with the imaginary noise (the two are independent inputs)"""
+    from types import SimpleNamespace
+    import autoarray as aa
+    from autoarray.fit import fit_util
+    g = {k: list(np.asarray(inp[k], dtype=object).reshape(N)) for k in ("dr", "di", "mr", "mi", "nr", "ni", "cr", "ci")}
+    sym = any(shim.has_sym(v) for v in g.values())
+    data, model, noise, cmap = _cvec(g["dr"], g["di"]), _cvec(g["mr"], g["mi"]), _cvec(g["nr"], g["ni"]), _cvec(g["cr"], g["ci"])
+    rr = [a - b for a, b in zip(g["dr"], g["mr"])]
+    ri = [a - b for a, b in zip(g["di"], g["mi"])]
+    res = _cvec(rr, ri)
+    nres = [a / q for a, q in zip(rr, g["nr"])] + [a / q for a, q in zip(ri, g["ni"])]
+    chi = [x * x for x in nres]
+    chi2 = _sum(chi)
+    norm = _sum([_log(TWO_PI * q * q) for q in g["nr"]]) + _sum([_log(TWO_PI * q * q) for q in g["ni"]])
+    A, E = {}, {}
+    A["normalized_residual_map_complex_from"] = _cparts(hx.attempt(fit_util.normalized_residual_map_complex_from, residual_map=res, noise_map=noise))
+    E["normalized_residual_map_complex_from"] = nres
+    A["chi_squared_map_complex_from"] = _cparts(hx.attempt(fit_util.chi_squared_map_complex_from, residual_map=res, noise_map=noise))
+    E["chi_squared_map_complex_from"] = chi
+    A["chi_squared_complex_from"] = _scalar(hx.attempt(fit_util.chi_squared_complex_from, chi_squared_map=cmap))
+    E["chi_squared_complex_from"] = _sum(g["cr"]) + _sum(g["ci"])
+    A["noise_normalization_complex_from"] = _scalar(hx.attempt(fit_util.noise_normalization_complex_from, noise_map=noise))
+    E["noise_normalization_complex_from"] = norm
+
+    # FitInterferometer on a dataset stand-in (aa.Interferometer itself needs pylops): real Visibilities structures on floats
+    if not sym:
+        data, noise, model = aa.Visibilities(visibilities=data), aa.VisibilitiesNoiseMap(visibilities=noise), aa.Visibilities(visibilities=model)
+
+    class _FitI(aa.FitInterferometer):
+        model_data = property(lambda self: model)
+
+    fit = _FitI(dataset=SimpleNamespace(data=data, noise_map=noise, noise_covariance_matrix=None), use_mask_in_fit=False)
+    for name, ref in (("residual_map", rr + ri), ("normalized_residual_map", nres), ("chi_squared_map", chi)):
+        A["fit." + name] = _cparts(hx.attempt(lambda: getattr(fit, name)))
+        E["fit." + name] = ref
+    for name, ref in (("chi_squared", chi2), ("reduced_chi_squared", chi2 / N), ("noise_normalization", norm),
+                      ("log_likelihood", -(chi2 + norm) / 2), ("figure_of_merit", -(chi2 + norm) / 2)):
+        A["fit." + name] = _scalar(hx.attempt(lambda: getattr(fit, name)))
+        E["fit." + name] = ref
+    return A, E
+
+
+def case_complex(ctx, N):
+    inputs = {k: V.real_array(k, (N,)) for k in ("dr", "di", "mr", "mi", "nr", "ni", "cr", "ci")}
+    for k in ("nr", "ni"):
+        for e in inputs[k]:
+            ctx.assume(e.t > 0)
+    ctx.set_case(N=N)
+    _run(ctx, body_complex, inputs, {"N": N}, validate_every=1)
+
+
 BODIES = {"case_fit": body_fit, "case_snr": body_snr, "case_rff": body_rff, "case_util": body_util, "case_evidence": body_evidence,
-          "case_order": body_order, "case_update": body_update}
+          "case_order": body_order, "case_update": body_update, "case_complex": body_complex}
 
 CONFIGS_Q = ["M1", "R2", "U1", "U1N1", "M2U1", "U1M2", "R1M2", "M1R2", "U1M2U1", "R1U1M1", "U1N1R2", "M1U1R1U1", "R1N1"]
 CONFIGS_T = CONFIGS_Q + ["R3", "M2", "U2M2", "R2U2", "U1R1N1M1", "M2R2", "R2R1", "M1M2", "U2M1U1", "R1M1R1", "U1M3U1", "M1U2R1", "N2R1"]
@@ -908,7 +1137,9 @@ def cases(tier):
         for native in (False, True):
             for (H, W) in ([(2, 2)] if quick else [(2, 2), (2, 3)]):
                 out.append(("case_evidence", {"H": H, "W": W, "native": native, "config": config}))
-    out.sort(key=lambda c: -(c[1]["H"] * c[1]["W"] * (4 if c[0] in ("case_snr", "case_order") else 1)))
+    for N in ((1, 2, 3) if quick else (1, 2, 3, 4, 6)):
+        out.append(("case_complex", {"N": N}))
+    out.sort(key=lambda c: -(c[1].get("H", 1) * c[1].get("W", 1) * (4 if c[0] in ("case_snr", "case_order") else 1)))
     return out
 
 
